@@ -38,6 +38,13 @@ CLAIMED.update({
         note="Trusted: the reference rolling policy and the strict name grammar (prefix.period.counter.id.ext with period of any of the three roll shapes); order-related rules apply only while the generated clock never steps back."),
 })
 
+CLAIMED.update({
+    "C03": dict(engine="ctx-frames", design="5/C03",
+        technique="deterministic simulation: generated frame programs executed as tasks polled one poll at a time on seeded lanes (real OS threads, real thread-locals) with injected panics and cancellations, against a stack-of-maps reference",
+        text="Seeded exploration of well-nested programs over the real Frame / ThreadLocalCtxt / erased-context API (push/root/disabled/current x enter/with/call/in_fn/in_future, re-entry, frames created in one place and entered in another, two isolated context instances plus the shared one), split over 1-4 tasks on 1-3 lanes plus hand-off threads. The seed decides which task is polled on which lane, where panics unwind and which suspended task is cancelled. At every observe point on every thread with_current must equal the innermost active frame of that strand; after every poll, cancellation, caught panic and thread exit every lane's ambient state must be empty for every context instance.",
+        note="Trusted: the stack-of-maps reference; keys are distinct within one frame (the statement's quantifier); programs are well nested by construction."),
+})
+
 PENDING = {
     "C03": "check not built yet (ctx engine in progress); will be claimed",
     "C04": "check not built yet (ctx engine in progress); will be claimed",
@@ -90,6 +97,8 @@ def main():
         "engines": [
             {"name": "chan-inline", "path": "/verif/sim/src/chan_inline.rs", "serves_properties": ["C06", "C07", "C08", "C09"],
              "kind_free_text": "single-OS-thread deterministic simulation of the real emit_batcher channel: seeded interleaver, virtual clock, scripted fault-injecting processor, reference queue"},
+            {"name": "ctx-frames", "path": "/verif/sim/src/ctx_frames.rs", "serves_properties": ["C03"],
+             "kind_free_text": "generated frame programs on a seeded lane executor (real threads, one poll at a time), panic and cancellation injection, stack-of-maps reference"},
             {"name": "fsim-faults", "path": "/verif/sim/src/fsim.rs", "serves_properties": ["C10"],
              "kind_free_text": "real emit_file worker over a fault-injecting in-memory filesystem (written vs synced, durable vs volatile entries); single-fault enumeration per generated history + sampled multi-fault sequences"},
             {"name": "fsim-rolling", "path": "/verif/sim/src/fsim.rs", "serves_properties": ["C11"],
